@@ -29,6 +29,28 @@ Theorem C09_slot_rotation : forall iv n k ms1 ms2,
 Proof. exact slot_rotation. Qed.
 Print Assumptions C09_slot_rotation.
 
+(** "not ahead of the local clock": the clock's slot (slot.Now() = Time(time.Now())) is taken
+    from the untouched clock reading by the same function as a block timestamp's slot, so both
+    are on one grid: whatever the sub-millisecond phase of the clock in slot k, a timestamp in
+    slot k+2 or later is future and one in slot k+1 or earlier is not.  Tied to the code by the
+    clock-bracket predicate of the slot engine (n0 <= Now().timeNs <= n1, timeMs = timeNs/10^6,
+    indices = those of the reading).  A clock rounded to the nearest millisecond is off the grid
+    (refutation; independent change C09-r5). *)
+Theorem C09_now_and_block_same_grid : forall iv now ts k,
+  0 < iv -> 0 <= now -> 0 <= ts ->
+  (k - 1) * iv < ns_to_ms now <= k * iv ->
+  ((k + 1) * iv < ns_to_ms ts -> is_future (from_unix_ns iv ts) (now_slot iv now) = true) /\
+  (ns_to_ms ts <= (k + 1) * iv -> is_future (from_unix_ns iv ts) (now_slot iv now) = false).
+Proof. exact now_and_block_same_grid_both. Qed.
+Print Assumptions C09_now_and_block_same_grid.
+
+Theorem C09_rounded_clock_off_grid_refuted :
+  exists iv now ts k,
+    (k - 1) * iv < ns_to_ms now <= k * iv /\ (k + 1) * iv < ns_to_ms ts /\
+    is_future (from_unix_ns iv ts) (rounded_now_slot iv now) = false.
+Proof. exact rounded_clock_off_grid_refuted. Qed.
+Print Assumptions C09_rounded_clock_off_grid_refuted.
+
 (** Two producers valid for the same timestamp are the same producer. *)
 Theorem C09_two_valid_same_producer :
   forall (ID : Type) (id_eqb : ID -> ID -> bool),
